@@ -359,6 +359,12 @@ class _Expr(ast.NodeTransformer):
         if simple and all(_int_typed(n, self.root) for n in names):
             try:
                 rf = Evaluator().ev(node)
+                try:
+                    fr = rf.as_fraction()
+                    if fr.denominator == 1:
+                        return ast.Constant(value=int(fr))
+                except Inconclusive:
+                    pass
                 return ast.Constant(value="<RF %s>" % rf.key())
             except (Inconclusive, ZeroDivisionError):
                 return node
@@ -393,6 +399,17 @@ class _Expr(ast.NodeTransformer):
             red = beta_reduce(node)
             if red is not node:
                 return self.visit(red)
+        # reversed(range(a, b))  ==  range(b - 1, a - 1, -1)
+        if isinstance(node.func, ast.Name) and node.func.id == "reversed" and len(node.args) == 1 and not node.keywords \
+                and isinstance(node.args[0], ast.Call) and isinstance(node.args[0].func, ast.Name) \
+                and node.args[0].func.id in ("range", "xrange") and 1 <= len(node.args[0].args) <= 2 \
+                and not node.args[0].keywords:
+            ra = node.args[0].args
+            lo = ra[0] if len(ra) == 2 else ast.Constant(value=0)
+            hi = ra[-1]
+            mk = lambda e: self.visit(ast.BinOp(left=e, op=ast.Sub(), right=ast.Constant(value=1)))
+            return ast.Call(func=ast.Name(id="range", ctx=ast.Load()),
+                            args=[mk(hi), mk(lo), ast.UnaryOp(op=ast.USub(), operand=ast.Constant(value=1))], keywords=[])
         if isinstance(node.func, ast.Name) and node.func.id == "list" and len(node.args) == 1 and not node.keywords \
                 and isinstance(node.args[0], ast.GeneratorExp):
             return self.visit(ast.ListComp(elt=node.args[0].elt, generators=node.args[0].generators))
@@ -1576,6 +1593,14 @@ def _inline_all(f, helpers, methods):
     return f
 
 
+_CTX = {"generators": set()}
+
+
+def module_generators(tree):
+    return {s_.name for s_ in tree.body if isinstance(s_, FuncTypes) and any(
+        isinstance(n, (ast.Yield, ast.YieldFrom)) for n in ast.walk(s_))}
+
+
 def _gen_defs_to_genexps(fn):
     """def g(p): for T in p: yield E   ...   g(iter(X))      ->      (E for T in X)
     (both call iter(X) on the spot and evaluate E lazily in the enclosing scope)"""
@@ -1605,9 +1630,16 @@ def _gen_defs_to_genexps(fn):
                 loads = [n for n in ast.walk(scope) if isinstance(n, ast.Name) and n.id == st.name and isinstance(n.ctx, ast.Load)]
                 if not calls or len(calls) != len(loads):
                     continue
-                if not all(len(c.args) == 1 and not c.keywords and isinstance(c.args[0], ast.Call)
-                           and isinstance(c.args[0].func, ast.Name) and c.args[0].func.id == "iter" and len(c.args[0].args) == 1
-                           for c in calls):
+                def eager_ok(c):
+                    if not (len(c.args) == 1 and not c.keywords and isinstance(c.args[0], ast.Call)
+                            and isinstance(c.args[0].func, ast.Name)):
+                        return False
+                    a_ = c.args[0]
+                    if a_.func.id == "iter" and len(a_.args) == 1:
+                        return True
+                    # a call of a generator function of the module: iter() of its result is the result itself
+                    return a_.func.id in _CTX["generators"]
+                if not all(eager_ok(c) for c in calls):
                     continue
                 # other definitions of the same name in the scope (if/else arms) are handled one by one: the call sites
                 # must be reached by exactly this definition - accepted when the definition is the only one of that name
@@ -1637,10 +1669,11 @@ def _gen_defs_to_genexps(fn):
                     def visit_Call(self, node):
                         self.generic_visit(node)
                         if id(node) in ids:
+                            src_ = node.args[0].args[0] if node.args[0].func.id == "iter" else node.args[0]
                             return ast.GeneratorExp(
                                 elt=ast.parse(elt_src, mode="eval").body,
                                 generators=[ast.comprehension(target=ast.parse(tgt_src + " = 0").body[0].targets[0],
-                                                              iter=node.args[0].args[0], ifs=[], is_async=0)])
+                                                              iter=src_, ifs=[], is_async=0)])
                         return node
                 blk.remove(st)
                 for i_, s_ in enumerate(scope.body):
@@ -1821,9 +1854,11 @@ class SegmentAdopter(object):
         self.hc, self.hr, self.mc, self.mr, self.hic, self.hir = helpers_cur, helpers_ref, meth_cur, meth_ref, hier_cur, hier_ref
         self.adopted = 0
         self.cache = {}
+        self.gens_c, self.gens_r = set(), set()
 
     def key(self, fn, stmts, cur):
         live = _stored(stmts) & _loaded_outside(fn, stmts)
+        _CTX["generators"] = self.gens_c if cur else self.gens_r
         try:
             f = _seg_function(stmts, live)
             return ast.dump(canonical_ast(f, self.hc if cur else self.hr, self.mc if cur else self.mr,
@@ -1924,6 +1959,7 @@ def adopt_segments(tree, ref_tree, hier_cur=None, hier_ref=None, skip=()):
             out.update(tables.get(cls, {}))
             return out
         ad = SegmentAdopter(helpers_cur, helpers_ref, mt(meth_cur, hier_cur), mt(meth_ref, hier_ref), hier_cur, hier_ref)
+        ad.gens_c, ad.gens_r = module_generators(tree), module_generators(ref_tree)
         node.body = ad.blocks(node, r, node.body, r.body)
         if ad.adopted:
             done[key] = ad.adopted
@@ -1988,6 +2024,7 @@ def adopt_reference(tree, ref_tree, hier_cur=None, hier_ref=None):
     helpers_cur = helper_table(tree)
     helpers_ref = helper_table(ref_tree)
     meth_cur, meth_ref = method_tables(tree), method_tables(ref_tree)
+    gens_cur, gens_ref = module_generators(tree), module_generators(ref_tree)
     ref = {k: n for k, n, _, _ in units(ref_tree)}
     adopted = []
     for key, node, container, idx in units(tree):
@@ -2008,7 +2045,11 @@ def adopt_reference(tree, ref_tree, hier_cur=None, hier_ref=None):
                     out.update(tables.get(b, {}))
                 out.update(tables.get(cls, {}))
                 return out
-            if canonical(fc, helpers_cur, mt(meth_cur, hier_cur), hier_cur) == canonical(fr, helpers_ref, mt(meth_ref, hier_ref), hier_ref):
+            _CTX["generators"] = gens_cur
+            ccur = canonical(fc, helpers_cur, mt(meth_cur, hier_cur), hier_cur)
+            _CTX["generators"] = gens_ref
+            cref = canonical(fr, helpers_ref, mt(meth_ref, hier_ref), hier_ref)
+            if ccur == cref:
                 new = copy.deepcopy(r)
                 # keep the position of the current definition for reports
                 delta = getattr(node, "lineno", 1) - getattr(r, "lineno", 1)
